@@ -120,7 +120,10 @@ func (prom *Prometheus) RangeQuery(ctx context.Context, expr string, params Rang
 		slog.Int("slices", len(slices)),
 	)
 
-	key := fmt.Sprintf("%s/%s/%s", APIPathQueryRange, expr, params.String())
+	// The lock key must determine the cache keys of the slices below (expr, slice start/end, step): the lookback
+	// window is not part of a slice's cache key, so it must not be part of the lock key either, otherwise two
+	// windows over the same expression and step request their shared 2h-aligned slices concurrently.
+	key := fmt.Sprintf("%s/%s/%s", APIPathQueryRange, expr, output.HumanizeDuration(step))
 	prom.locker.lock(key)
 	defer prom.locker.unlock(key)
 
